@@ -91,6 +91,7 @@ type Task struct {
 	inServer  int32 // > 0 while the task executes the system under test (not harness code)
 	simWait   int32 // > 0 while the task waits inside simrt itself (bolt helper goroutine)
 	waking    int32 // set by whoever hands this task the baton, cleared by the task once it runs
+	parent    *Task // the task that spawned this one with Go (nil for the tasks of the harness)
 }
 
 type abortT struct{}
@@ -202,6 +203,7 @@ func (s *Sim) Spawn(name string, f func()) *Task {
 	t := &Task{ID: len(s.tasks), Name: name, wake: make(chan struct{}, 1), holding: map[string]int{}}
 	if s.cur != nil {
 		t.inServer = atomic.LoadInt32(&s.cur.inServer)
+		t.parent = s.cur
 	}
 	if s.policy.Kind == "pct" {
 		t.prio = 1000 + s.rng.Intn(1000000)
@@ -512,6 +514,18 @@ func (s *Sim) block(t *Task, on string) {
 	t.blockedOn = ""
 }
 
+// behindStalledPeer: t is a goroutine of a request whose client stopped
+// sending (it waits for data that request will never get): it is part of the
+// stalled request, not a request wedged behind it.
+func behindStalledPeer(t *Task) bool {
+	for p := t.parent; p != nil; p = p.parent {
+		if p.state == stExternal {
+			return true
+		}
+	}
+	return false
+}
+
 // noRunnable decides what happens when no task can run.  Tasks waiting for
 // an external event (a client that stopped sending) are released only when
 // everything else has finished; if instead other tasks are blocked on locks,
@@ -530,7 +544,9 @@ func (s *Sim) noRunnable() *Task {
 				ext = x
 			}
 		case stBlocked, stChan:
-			blocked = true
+			if !behindStalledPeer(x) {
+				blocked = true
+			}
 		}
 	}
 	if ext == nil {
@@ -637,7 +653,7 @@ func (s *Sim) exit(t *Task) {
 			if x.state == stExternal && ext == nil {
 				ext = x
 			}
-			if x.state == stBlocked || x.state == stChan {
+			if (x.state == stBlocked || x.state == stChan) && !behindStalledPeer(x) {
 				blocked = true
 			}
 		}
@@ -1212,7 +1228,7 @@ func (s *Sim) settle(x *Task) bool {
 func (s *Sim) waitChan() *Task {
 	any := false
 	for _, x := range s.tasks {
-		if x.state == stChan {
+		if x.state == stChan && (atomic.LoadInt32(&x.chanEnd) == 1 || !behindStalledPeer(x)) {
 			any = true
 		}
 	}
